@@ -679,6 +679,37 @@ func altRepFamily() []Pat {
 	return finalize("ALTREP", trees, map[string]bool{}, false)
 }
 
+// ---- ALTSET: alternations whose branches are one or two atoms, the atoms including negated and multi-member
+// classes: the prefix analyses enumerate "the characters of the set" of a branch's first atom and have to notice
+// when that list is the complement (`[^ab]c|ab` under code-gen analysis published the prefixes ac, bc, ab) ----
+
+func altSetFamily() []Pat {
+	atoms := func() []*Node {
+		return []*Node{lit('a'), lit('b'), lit('c'), set(false, 'a', 'b'), set(true, 'a', 'b'), set(true, 'a'), set(true, 'a', 'b', 'c'), anyc()}
+	}
+	var branches []*Node
+	for i := range atoms() {
+		branches = append(branches, atoms()[i])
+		for j := range atoms() {
+			branches = append(branches, cat(atoms()[i], atoms()[j]))
+		}
+	}
+	var trees []*Node
+	for i, x := range branches {
+		for j, y := range branches {
+			if i == j {
+				continue
+			}
+			a := alt(clone(x), clone(y))
+			trees = append(trees, a)
+			if (i+j)%7 == 0 {
+				trees = append(trees, cat(&Node{K: KGroup, Kids: []*Node{clone(a)}}, lit('c')), capg(clone(a)))
+			}
+		}
+	}
+	return finalize("ALTSET", trees, map[string]bool{}, false)
+}
+
 // ---- LOOPALT: counted group loops (greedy and lazy, minimum >= 2 included) whose body is an alternation of
 // literals of different lengths: an iteration can be re-matched through another branch after a later one failed,
 // which is where the iteration counters have to be restored exactly ----
